@@ -13,7 +13,7 @@ META = {
              "box; handle stratum: case = builder scenario JSON, non-trivial when the op has >= 2 outputs "
              "or is a container/insert scenario"),
     "required": ["monitor:int-index", "monitor:slice-index", "monitor:iter", "monitor:unknown-count",
-                 "monitor:port-eq-hash", "monitor:builder-handle", "feature:call-poly-arity", "feature:recycled-index",
+                 "monitor:port-eq-hash", "monitor:builder-handle", "feature:op-object-used-before", "feature:call-poly-arity", "feature:recycled-index",
                  "feature:container", "feature:insert"],
     "reach": ["hugr.hugr.node_port:Node._index", "hugr.hugr.node_port:Node._normalize_index",
               "hugr.build.dfg:DfBase.add_op"],
@@ -150,6 +150,8 @@ def gen_scenario(r):
     if kind == "op":
         sc["op"] = r.choice(OPS)
         sc["via"] = r.choice(VIAS)
+        if sc["op"] in ("UnpackTuple", "CallIndirect", "MakeTuple", "Noop") and r.random() < 0.5:
+            sc["reused"] = r.randint(0, 3)
     return sc
 
 
@@ -225,6 +227,15 @@ def run_scenario(ctx, sc):
         d = TrackedDfg(*ins, track_inputs=True) if via == "tracked" else Dfg(*ins)
         recycle(d.hugr)
         op = mk()
+        if sc.get("reused") and name in ("UnpackTuple", "CallIndirect", "MakeTuple", "Noop"):
+            # the op object has been used before, on wires of another arity (its types are inferred per use)
+            ctx.feat("feature:op-object-used-before")
+            k0 = (k + 1 + sc["reused"]) % 5
+            ins0 = {"UnpackTuple": [tys.Tuple(*([B] * k0))], "MakeTuple": [B] * k0, "Noop": [Q],
+                    "CallIndirect": [tys.FunctionType([B] * m, [B] * k0)] + [B] * m}[name]
+            d0 = Dfg(*ins0)
+            h0 = d0.add_op(op, *d0.inputs())
+            handle_checks(ctx, h0, {"UnpackTuple": k0, "CallIndirect": k0}.get(name, 1), sc, f"first-use({name})")
         wires = d.inputs()
         if via == "add_op":
             h = d.add_op(op, *wires)
